@@ -70,18 +70,10 @@ class Specs:
         PV = U.PV
         B = z3.BoolSort()
 
-        def all_str_body(q):
-            n = z3.Length(q)
-            return z3.If(n == 0, z3.BoolVal(True),
-                         z3.And(U.is_tag("StrV", q[0]), self.all_str(z3.SubSeq(q, 1, n - 1))))
-        self.all_str = DefFun("all_str", [U.Seq], B, all_str_body, cheap=True)
-
-        def all_shape_body(q):
-            n = z3.Length(q)
-            return z3.If(n == 0, z3.BoolVal(True),
-                         z3.And(U.is_node(q[0], EXPR_KINDS + ["NamedParam"]), self._shape(q[0]),
-                                self.all_shape(z3.SubSeq(q, 1, n - 1))))
-        self.all_shape = DefFun("all_shape", [U.Seq], B, all_shape_body, cheap=True)
+        from .deffun import AllPred
+        self.all_str = AllPred("all_str", U.Seq, lambda t: U.is_tag("StrV", t))
+        self.all_shape = AllPred("all_shape", U.Seq,
+                                 lambda t: z3.And(U.is_node(t, EXPR_KINDS + ["NamedParam"]), self._shape(t)))
 
         def shape_body(e):
             body = z3.BoolVal(False)
